@@ -692,7 +692,13 @@ class Interp:
                     if h.type is None or self._exc_caught(e.exc_name, names):
                         if h.name:
                             env[h.name] = getattr(e, "value", None) or Obj(None, {"__traceback__": None, "exc_name": e.exc_name, "args": (e.msg,)}, "exception")
-                        self.block(h.body, env, m)
+                        if not hasattr(self, "_handled"):
+                            self._handled = []
+                        self._handled.append(e)
+                        try:
+                            self.block(h.body, env, m)
+                        finally:
+                            self._handled.pop()
                         break
                 else:
                     self.block(st.finalbody, env, m)
@@ -703,9 +709,31 @@ class Interp:
             return
         if isinstance(st, ast.Raise):
             name = "Exception"
+            if st.exc is None and getattr(self, "_handled", None):
+                raise self._handled[-1]  # a bare `raise` in a handler: the exception being handled goes on
             if st.exc is not None:
                 f = st.exc.func if isinstance(st.exc, ast.Call) else st.exc
                 name = (dotted(f) or "Exception").split(".")[-1]
+                if getattr(self.sc, "real_objects", False):
+                    # scenarios that run whole objects: which exception, and with what text, is computed as Python computes it
+                    if isinstance(f, ast.Attribute) and f.attr == "__class__":
+                        base = self.eval(f.value, env, m)
+                        if isinstance(base, Obj) and base.kind == "exception":
+                            name = base.fields.get("exc_name", name)
+                    elif isinstance(st.exc, ast.Name) and isinstance(env.get(st.exc.id), Obj) and env[st.exc.id].kind == "exception":
+                        ex0 = env[st.exc.id]
+                        raise EvalRaise(ex0.fields.get("exc_name", "Exception"), self._to_str(ex0) or "")
+                    msg = None
+                    if isinstance(st.exc, ast.Call):
+                        if st.exc.args:
+                            try:
+                                msg = self._to_str(self.eval(st.exc.args[0], env, m))
+                            except (AnalysisError, EvalRaise):
+                                msg = None
+                        else:
+                            msg = ""
+                    if msg is not None:
+                        raise EvalRaise(name, msg)
             raise EvalRaise(name, src(st)[:80])
         if isinstance(st, ast.Assert):
             if not self.truth(self.eval(st.test, env, m)):
@@ -1084,6 +1112,9 @@ class Interp:
             return str(x)
         if isinstance(x, EnumMember):
             return f"{x.enum.split(':')[-1]}.{x.name}"
+        if isinstance(x, Obj) and x.kind == "exception":
+            a_ = x.fields.get("args") or ()
+            return str(a_[0]) if len(a_) == 1 else str(tuple(a_)) if a_ else ""
         if isinstance(x, Obj) and x.cls is not None and self.repo.lookup(x.cls, "__str__") is not None:
             r_ = self.repo.lookup(x.cls, "__str__")
             try:
@@ -1126,14 +1157,19 @@ class Interp:
             return any(self._eq(a, x) for x in b)
         if isinstance(op, ast.NotIn):
             return not any(self._eq(a, x) for x in b)
-        if isinstance(op, ast.Lt):
-            return a < b
-        if isinstance(op, ast.LtE):
-            return a <= b
-        if isinstance(op, ast.Gt):
-            return a > b
-        if isinstance(op, ast.GtE):
-            return a >= b
+        try:
+            if isinstance(op, ast.Lt):
+                return a < b
+            if isinstance(op, ast.LtE):
+                return a <= b
+            if isinstance(op, ast.Gt):
+                return a > b
+            if isinstance(op, ast.GtE):
+                return a >= b
+        except TypeError as ex_:
+            if all(isinstance(x_, (int, float, str, type(None), list, tuple, bytes)) for x_ in (a, b)):
+                raise EvalRaise("TypeError", str(ex_))  # what Python raises for these two values
+            raise AnalysisError(f"circuit evaluation: ordering of {type(a).__name__} and {type(b).__name__}")
         raise AnalysisError("compare op")
 
     def _eq(self, a, b):
@@ -1190,12 +1226,16 @@ class Interp:
                 return a << b
             if isinstance(op, ast.RShift):
                 return a >> b
+        except ZeroDivisionError as e:
+            raise EvalRaise("ZeroDivisionError", str(e))
         except TypeError as e:
+            if getattr(self.sc, "real_objects", False) and all(isinstance(x_, (int, float, str, type(None), list, tuple, bytes, bool)) for x_ in (a, b)):
+                raise EvalRaise("TypeError", str(e))  # what Python raises for these two plain values
             raise AnalysisError(f"circuit evaluation: {src(node)[:60]}: {e}")
         raise AnalysisError(f"circuit evaluation: operator in {src(node)[:60]}")
 
     def global_name(self, name, m):
-        if name in ("int", "float", "str", "tuple", "list", "bool", "dict", "set", "frozenset", "bytes", "setattr"):
+        if name in ("int", "float", "str", "tuple", "list", "bool", "dict", "set", "frozenset", "bytes", "setattr", "slice", "bytearray", "complex", "object", "type"):
             return ("external", "builtins." + name)
         r = self.repo.resolve(m, name)
         if r is None:
@@ -1436,6 +1476,10 @@ class Interp:
         if isinstance(o, RegSym) and attr == "name":
             return ("external", "RegisterName.Q")
         if isinstance(o, (str, list, set, dict, bytes, bytearray, tuple, frozenset)) and not attr.startswith("_") and hasattr(o, attr) and not (isinstance(o, tuple) and o and isinstance(o[0], str) and o[0] in ("class", "func", "external", "boundmethod", "closure", "lambda", "partial", "classmethod", "module")):
+            return getattr(o, attr)
+        if isinstance(o, slice) and attr in ("start", "stop", "step"):
+            return getattr(o, attr)
+        if isinstance(o, (int, float)) and not isinstance(o, bool) and attr in ("real", "imag", "numerator", "denominator"):
             return getattr(o, attr)
         if o is None or isinstance(o, (bool, int, float)):
             raise EvalRaise("AttributeError", f"{type(o).__name__} has no attribute {attr} ({src(node)[:50] if node is not None else ''})")
